@@ -23,17 +23,18 @@ def wrap_run(pid, tier, seed, kinds, targets, buildlen, wraplen):
             run.cov["transitions"] += r["generated"]
             run.cov["tlc_runs"].append({"model": "WrapSpec", "kind": kind, "base": target, "build_len": buildlen,
                                         "wrapper_calls": wraplen, "generated": r["generated"], "distinct": r["distinct"],
-                                        "checked": ["RoNeverChangesBase", "RoRefusesMutators", "InjectedIsReturned"]})
-            run.replay(edges, target)
+                                        "checked": ["RoNeverChangesBase", "RoRefusesMutators", "InjectedIsReturned", "BpConfines"]})
+            run.replay(edges, target, names="a,b,B,f,s" if kind == "basepath" else "a,b")
             if not run.cov["samples"]:
                 with open(edges) as f:
                     for i, line in enumerate(f):
-                        if i == 4321:
-                            e = json.loads(json.loads(line))
+                        e = json.loads(json.loads(line)) if i >= 1000 else {"t": "alt"}
+                        if e.get("t") != "alt":
                             run.cov["samples"].append({"base_built_by": [c["op"] + " " + nscheck.P(c["p"]) for c in e["hist"]],
                                                        "through": e["wrap"], "earlier": [c["op"] for c in e["wh"]],
                                                        "call": e["call"]["op"] + " " + nscheck.P(e["call"]["p"]),
                                                        "expected": e["res"]["err"]})
+                            break
     return run
 
 
@@ -56,5 +57,19 @@ def check_c12(tier, seed):
         run.cov["exhaustive"] = True
         run.cov["universe"] = "base trees built by <=%d elementary calls; plans: none, ReadOnlyFunc, and 'the 1st/2nd consultation of F fails' for 30 primitives F; <=%d calls through the wrapper, each consulting the planned primitive until the plan fires" % ((1, 2) if q else (2, 3))
         return nscheck.finish(run, "C12", extra_assumptions=["the injected error is a sentinel; the sequence of consulted primitives of every call is logged by the failure function and must equal the specification's"])
+    finally:
+        run.close()
+
+
+def check_c10(tier, seed):
+    q = tier == "quick"
+    run = wrap_run("C10", tier, seed, ["basepath"], ["memfs", "orefafs"], 0, 1 if q else 2)
+    try:
+        run.cov["exhaustive"] = True
+        run.cov["universe"] = "BasePathFS at /w/B over a base with a directory and a file inside B and a sentinel file and directory outside; " \
+                              "125 path strings (absolute and relative, 1-4 components from {a,f,b,.,..,B,s,w}) x 20 call templates; " \
+                              "%d consecutive wrapper calls (Chdir in the history)" % (1 if q else 2)
+        return nscheck.finish(run, "C10", extra_assumptions=["no symbolic links in the base (BasePathFS does not advertise them)",
+                                                              "every string returned or embedded in an error is scanned for the base path"])
     finally:
         run.close()
